@@ -3,6 +3,8 @@
 (* server at their linearisation points (under the history lock) must be a *)
 (* behaviour of the updater protocol, and every read must see the serial   *)
 (* that the last Install established.                                      *)
+(*   RunStart{initial}                  process_once, after mark_update_start *)
+(*   RunFailed{fatal}                   process_once returned an error     *)
 (*   Install{serial, ndeltas, changed}  SharedHistory::update (write lock) *)
 (*   MarkDone{created}                  mark_update_done (write lock)      *)
 (*   Notify                             NotifySender::notify               *)
@@ -13,16 +15,33 @@ EXTENDS Naturals, Sequences, TLC, Json, IOUtils
 
 Rec == ndJsonDeserialize(IOEnv.TRACE)
 
-VARIABLES l, serial, active, pcU, changed, created
-tvars == <<l, serial, active, pcU, changed, created>>
+VARIABLES l, serial, active, pcU, changed, created, resume
+tvars == <<l, serial, active, pcU, changed, created, resume>>
 
-TInit == l = 1 /\ serial = 0 /\ active = FALSE /\ pcU = "idle" /\ changed = FALSE /\ created = 0
+TInit == l = 1 /\ serial = 0 /\ active = FALSE /\ pcU = "idle" /\ changed = FALSE /\ created = 0 /\ resume = "idle"
 
 IsEvent(e) == l <= Len(Rec) /\ Rec[l].ev = e /\ l' = l + 1
 
+(* A run starts when the previous cycle is over: after its Notify, or after *)
+(* MarkDone when nothing changed (no Notify then), or after a failed run.   *)
+TRunStart ==
+  /\ IsEvent("RunStart")
+  /\ pcU = "idle" \/ (pcU = "marked" /\ ~changed)
+  /\ resume' = pcU /\ pcU' = "running"
+  /\ UNCHANGED <<serial, active, changed, created>>
+
+(* C33: a failed run has installed nothing, marked nothing, notified nobody: *)
+(* the cycle is where it was before the run.                                *)
+TRunFailed ==
+  /\ IsEvent("RunFailed")
+  /\ pcU = "running"
+  /\ pcU' = resume
+  /\ UNCHANGED <<serial, active, changed, created, resume>>
+
+
 TInstall ==
   /\ IsEvent("Install")
-  /\ pcU = "idle" \/ (pcU = "marked" /\ ~changed)
+  /\ pcU = "running"
   /\ LET r == Rec[l] IN
      /\ (~active) => (r.serial = 0 /\ r.changed = 1)
      /\ (active /\ r.changed = 1) => r.serial = serial + 1
@@ -30,29 +49,29 @@ TInstall ==
      /\ serial' = r.serial
      /\ changed' = (r.changed = 1)
      /\ r.ndeltas <= r.serial
-  /\ active' = TRUE /\ pcU' = "installed" /\ UNCHANGED created
+  /\ active' = TRUE /\ pcU' = "installed" /\ UNCHANGED <<created, resume>>
 
 TMarkDone ==
   /\ IsEvent("MarkDone") /\ pcU = "installed"
   /\ Rec[l].created > created          \* creation times strictly increase
   /\ created' = Rec[l].created
-  /\ pcU' = "marked" /\ UNCHANGED <<serial, active, changed>>
+  /\ pcU' = "marked" /\ UNCHANGED <<serial, active, changed, resume>>
 
 TNotify ==
   /\ IsEvent("Notify") /\ pcU = "marked" /\ changed
-  /\ pcU' = "idle" /\ UNCHANGED <<serial, active, changed, created>>
+  /\ pcU' = "idle" /\ UNCHANGED <<serial, active, changed, created, resume>>
 
 TRead(e) ==
   /\ IsEvent(e)
   /\ Rec[l].serial = serial
   /\ (e = "HttpRead") => ((Rec[l].active = 1) <=> active)
-  /\ UNCHANGED <<serial, active, pcU, changed, created>>
+  /\ UNCHANGED <<serial, active, pcU, changed, created, resume>>
 
 TReset ==
   /\ IsEvent("Reset")
-  /\ serial' = 0 /\ active' = FALSE /\ pcU' = "idle" /\ changed' = FALSE /\ created' = 0
+  /\ serial' = 0 /\ active' = FALSE /\ pcU' = "idle" /\ changed' = FALSE /\ created' = 0 /\ resume' = "idle"
 
-TNext == TInstall \/ TMarkDone \/ TNotify \/ TRead("HttpRead") \/ TRead("RtrFull") \/ TRead("RtrDiff") \/ TReset
+TNext == TRunStart \/ TRunFailed \/ TInstall \/ TMarkDone \/ TNotify \/ TRead("HttpRead") \/ TRead("RtrFull") \/ TRead("RtrDiff") \/ TReset
 TraceSpec == TInit /\ [][TNext]_tvars
 
 TraceAccepted ==
